@@ -1992,7 +1992,10 @@ func (sa *Application) removeAllocationInternal(allocationKey string, releaseTyp
 			// a placeholder that is swapped for its real allocation does not leave the application without
 			// allocations: the real allocation is added directly after this removal
 			swapped := releaseType == si.TerminationType_PLACEHOLDER_REPLACED && alloc.GetRelease() != nil
-			if (sa.IsCompleting() && sa.stateTimer == nil && !swapped) || sa.IsFailing() || sa.IsResuming() || (sa.hasZeroAllocations() && !swapped) {
+			// a failing application still waits for the release of its real allocations: it is failed when the last
+			// of those is gone, otherwise they would be left behind on the nodes
+			failed := sa.IsFailing() && resources.IsZero(sa.allocatedResource)
+			if (sa.IsCompleting() && sa.stateTimer == nil && !swapped) || failed || sa.IsResuming() || (sa.hasZeroAllocations() && !swapped) {
 				removeApp = true
 				event = CompleteApplication
 				if sa.IsFailing() {
@@ -2020,6 +2023,10 @@ func (sa *Application) removeAllocationInternal(allocationKey string, releaseTyp
 		if sa.hasZeroAllocations() {
 			removeApp = true
 			event = CompleteApplication
+			// last real allocation of a failing application which has no placeholders left: fail it now
+			if sa.IsFailing() && resources.IsZero(sa.allocatedPlaceholder) {
+				event = FailApplication
+			}
 			eventWarning = "Application state not changed to Completing while removing an allocation"
 		}
 		sa.decUserResourceUsage(alloc.GetAllocatedResource(), removeApp)
